@@ -3,13 +3,9 @@ Props/C18 — Overload plugin never admits more than its connection and rate lim
 Property theorems only; the model is Model/Overload (plugin/overloader/*.go composed with the
 accept and close paths of peer.go / session.go), helper lemmas live in Lemmas/Overload.
 
-Two statements of the property do NOT hold for the code as it is; for each the full-strength
-statement is kept in a comment, the part that holds is proved as `_partial`, and the violating
-history is proved as `_witness` in the model of the composed system:
-  * a connection refused by the limiter is closed through `Session.Close`, whose disconnect hook
-    releases a slot that was never taken (`C18_conn_bound_witness`, `C18_reject_no_slot_witness`);
-  * the ticker's refill is load / compute / store, not atomic with `take`
-    (`C18_rate_bound_witness`).
+Every statement is proved at full strength: all numbers of concurrent connections / takers, all
+interleavings of their atomic operations (the ticker's load and compare-and-swap included), all
+sequential histories.
 -/
 import Teleport.Lemmas.Overload
 namespace Teleport
@@ -18,43 +14,104 @@ open Overload
 
 /-! ## connection limit -/
 
-/- Full-strength statement (FALSE for the code as it is, see `C18_conn_bound_witness`):
-     theorem C18_conn_bound (lim : Int) (h : 0 ≤ lim) (s : St)
-         (r : Reach CStep (St.init lim) s) (hc : s.hi = lim) : (s.admitted : Int) ≤ lim
-   i.e. in the system as coded (accept path included), while the limit is constant, never more than
-   `lim` entities are admitted at the same time. -/
+/-- The composed system (plugin + accept path + close paths: `release` is run only for a session
+    whose `take` returned true, once; a refused connection only undoes its own `tmp++`), for every
+    number of concurrent connections and every interleaving of their atomic operations, `Update`s
+    included: while the limit has never been switched off (`unl = false`) and no limit larger than
+    the initial one has been in force (`hi = lim`; in particular while the limit is constant), the
+    number of concurrently admitted sessions never exceeds the limit. -/
+theorem C18_conn_bound (lim : Int) (h : 0 ≤ lim) (s : St)
+    (r : Reach UStep (St.init lim) s) (hc : s.hi = lim) (hu : s.unl = false) :
+    (s.admitted : Int) ≤ lim := by
+  have hb := linv_bound (linv_reach (linv_init lim h) r) hu
+  rw [hc] at hb
+  exact hb
 
-/-- The limiter in isolation (release called only by an entity whose `take` returned true — what
-    the plugin would get from an accept path that did not run the disconnect hook for refused
-    connections): for every number of concurrent takers and releasers and every interleaving of
-    their atomic operations, while the limit is constant, the number of concurrently admitted
-    entities never exceeds the limit. -/
-theorem C18_conn_bound_partial (lim : Int) (h : 0 ≤ lim) (s : St)
+/-- non-vacuity: a state with two admitted sessions under the constant limit 2 is reachable. -/
+example : ∃ s, Reach UStep (St.init 2) s ∧ s.hi = 2 ∧ s.unl = false ∧ s.admitted = 2 := by
+  have r0 : Reach UStep (St.init 2) (St.init 2) := .refl
+  have r1 := r0.step (.base (Step.arrive _))
+  have r2 := r1.step (.base (Step.arrive _))
+  have r3 := r2.step (.base (Step.checkOk _ [] [⟨.gotX, 2⟩] 1 rfl (by decide)))
+  have r4 := r3.step (.base (Step.checkOk _ [⟨.willInc, 1⟩] [] 2 rfl (by decide)))
+  exact ⟨_, r4, rfl, rfl, by decide⟩
+
+/-- Without `Update` a positive limit stays what it was and bounds the admitted sessions. -/
+theorem C18_conn_bound_const (lim : Int) (h : 0 < lim) (s : St)
     (r : Reach Step (St.init lim) s) : s.lim = lim ∧ (s.admitted : Int) ≤ lim := by
   have hl := reach_step_lim_hi r
-  have hi := linv_reach (linv_init lim h) (reach_mono (fun _ _ => UStep.base) r)
-  have hb := linv_bound hi
-  rw [hl.2] at hb
-  exact ⟨hl.1, hb⟩
+  refine ⟨hl.1, C18_conn_bound lim (by omega) s (reach_mono (fun _ _ => UStep.base) r) hl.2.1 ?_⟩
+  rw [hl.2.2]; simp [St.init]; omega
 
-/-- non-vacuity: a state with two admitted entities under limit 2 is reachable. -/
-example : ∃ s, Reach Step (St.init 2) s ∧ s.admitted = 2 := by
-  have r0 : Reach Step (St.init 2) (St.init 2) := .refl
-  have r1 := r0.step (Step.arrive _)
-  have r2 := r1.step (Step.arrive _)
-  have r3 := r2.step (Step.checkOk _ [] [⟨.gotX, 2⟩] 1 rfl (by decide))
-  have r4 := r3.step (Step.checkOk _ [⟨.willInc, 1⟩] [] 2 rfl (by decide))
-  exact ⟨_, r4, by decide⟩
+/-- The same bound for the sequential composition that the harness replays against the real peer
+    (`Sys`: `ServeConn` = `postAccept` + on refusal `sess.Close()`; `Close` = `postDisconnect`):
+    after ANY history of connects and closes (first, second, of refused or admitted sessions) under
+    `MaxConn = lim > 0`, the live sessions number at most `lim`, and the limiter's counters equal
+    that number. -/
+theorem C18_conn_bound_seq (c : Conf) (o : OV) (hc : 0 < c.maxConn) (ho : OV.new c = some o)
+    (ops : List SOp) (hn : ∀ op ∈ ops, op.isUpdate = false) :
+    let s := Sys.run ⟨o, []⟩ ops
+    (s.live : Int) ≤ c.maxConn ∧ s.ov.conn = some ⟨c.maxConn, (s.live : Nat), (s.live : Nat)⟩ := by
+  have h0 : SInv c.maxConn ⟨o, []⟩ := by
+    refine ⟨?_, hc, ?_⟩
+    · simpa [CInv, Sys.live] using new_conn ho
+    · simp only [Sys.live, List.countP_nil]; omega
+  have h := sinv_run ops hn h0
+  exact ⟨h.2.2, h.1⟩
 
-/-- With `Update` at arbitrary moments: the admitted entities never exceed the largest limit that
-    has been in force so far (`hi`; it is `max` of the initial limit and all updates), and every
-    admission decision compared the captured count with the limit in force at that moment
-    (constructor `Step.checkOk`). This is the sharpest bound the algorithm can give across a
-    lowering of the limit, see `C18_conn_update_gap_witness`. -/
+/-- non-vacuity: `MaxConn = 1`; connect, connect (refused), connect (refused again: the refusal
+    before released nothing), close, connect: one live session throughout. -/
+example : ∃ o, OV.new ⟨1, 0, 0, []⟩ = some o ∧
+    let s1 := (Sys.connect ⟨o, []⟩)
+    let s2 := s1.1.connect
+    let s3 := s2.1.connect
+    s1.2 = .admitted ∧ s2.2 = .rejected 1 1 ∧ s3.2 = .rejected 1 1 ∧ s3.1.live = 1 ∧
+    (Sys.run ⟨o, []⟩ [.connect, .connect, .connect, .close 0, .connect]).live = 1 ∧
+    (∀ op ∈ [SOp.connect, .connect, .connect, .close 0, .connect], op.isUpdate = false) := by
+  refine ⟨_, rfl, ?_⟩
+  decide
+
+/-- Switching the limit off and on again does not forget the open sessions: after ANY history of
+    connects, closes and `Update`s of `MaxConn` to any value (`<= 0` = no limit), from any initial
+    configuration, both counters of the limiter equal the number of live sessions, and a connect
+    that is admitted while a positive limit `lim` is in force leaves at most `lim` live sessions. -/
+theorem C18_reenable_keeps_count (c : Conf) (o : OV) (ho : OV.new c = some o) (ops : List SOp) :
+    let s := Sys.run ⟨o, []⟩ ops
+    ∃ lim, s.ov.conn = some ⟨lim, (s.live : Nat), (s.live : Nat)⟩ ∧
+      (0 < lim → s.connect.2 = .admitted → (s.connect.1.live : Int) ≤ lim) := by
+  have h0 : CInv c.maxConn ⟨o, []⟩ := by
+    simpa [CInv, Sys.live] using new_conn ho
+  obtain ⟨lim, h⟩ := cinv_run ops h0
+  refine ⟨lim, h, fun hp ha => ?_⟩
+  rcases (cinv_connect h).2 with ⟨_, hl, hb⟩ | ⟨hr, _, _, _⟩
+  · rw [hl]; push_cast; omega
+  · rw [hr] at ha; cases ha
+
+/-- non-vacuity, the history that used to admit a second session: `MaxConn = 1`, connect,
+    `Update(0)`, `Update(1)`, connect — refused, the first session is still counted; with the limit
+    off a second session is admitted and counted, and lowering the limit to 1 afterwards admits
+    no third one. -/
+example : ∃ o, OV.new ⟨1, 0, 0, []⟩ = some o ∧
+    (Sys.run ⟨o, []⟩ [.connect, .update 0, .update 1]).connect.2 = .rejected 1 1 ∧
+    (Sys.run ⟨o, []⟩ [.connect, .update 0, .connect]).live = 2 ∧
+    (Sys.run ⟨o, []⟩ [.connect, .update 0, .connect, .update 1]).connect.2 = .rejected 1 2 := by
+  refine ⟨_, rfl, ?_⟩
+  decide
+
+/-- With `Update` at arbitrary moments, while the limit has never been switched off: the admitted
+    entities never exceed the largest limit that has been in force so far (`hi`; it is `max` of the
+    initial limit and all updates), and every admission decision compared the captured count with
+    the limit in force at that moment (constructor `Step.checkOk`). This is the sharpest bound the
+    algorithm can give across a lowering of the limit, see `C18_conn_update_gap_witness`. -/
 theorem C18_conn_bound_update (lim : Int) (h : 0 ≤ lim) (s : St)
-    (r : Reach UStep (St.init lim) s) : (s.admitted : Int) ≤ s.hi ∧ s.lim ≤ s.hi := by
+    (r : Reach UStep (St.init lim) s) (hu : s.unl = false) :
+    (s.admitted : Int) ≤ s.hi ∧ s.lim ≤ s.hi := by
   have hi := linv_reach (linv_init lim h) r
-  exact ⟨linv_bound hi, hi.lim_le⟩
+  exact ⟨linv_bound hi hu, hi.lim_le⟩
+
+/-- non-vacuity: raising the limit from 1 to 2 keeps `unl = false`. -/
+example : ∃ s, Reach UStep (St.init 1) s ∧ s.unl = false ∧ s.hi = 2 :=
+  ⟨_, Reach.refl.step (UStep.update _ 2), rfl, rfl⟩
 
 /-- "admitted ≤ the current limit" cannot hold across a lowering of the limit, whatever the
     limiter does: two sessions admitted under limit 2 are still there after `Update(1)`. -/
@@ -65,70 +122,40 @@ theorem C18_conn_update_gap_witness :
   have r2 := r1.step (.base (Step.arrive _))
   have r3 := r2.step (.base (Step.checkOk _ [] [⟨.gotX, 2⟩] 1 rfl (by decide)))
   have r4 := r3.step (.base (Step.checkOk _ [⟨.willInc, 1⟩] [] 2 rfl (by decide)))
-  have r5 := r4.step (UStep.update _ 1 (by decide))
+  have r5 := r4.step (UStep.update _ 1)
   exact ⟨_, r5, rfl, by decide⟩
-
-/-- The system as coded violates the connection bound: limit 1, one session admitted, a second
-    connection refused — its session is closed, the disconnect hook releases a slot — and a third
-    connection is admitted while the first is still there: 2 admitted under a constant limit 1. -/
-theorem C18_conn_bound_witness :
-    ∃ s, Reach CStep (St.init 1) s ∧ s.lim = 1 ∧ s.hi = 1 ∧ s.admitted = 2 := by
-  have r0 : Reach CStep (St.init 1) (St.init 1) := .refl
-  -- first connection: tmp++ (x = 1), 1 ≤ lim, now++
-  have r1 := r0.step (.base (.base (Step.arrive _)))
-  have r2 := r1.step (.base (.base (Step.checkOk _ [] [] 1 rfl (by decide))))
-  have r3 := r2.step (.base (.base (Step.inc _ [] [] 1 rfl)))
-  -- second connection: tmp++ (x = 2), 2 > lim, tmp--; refused
-  have r4 := r3.step (.base (.base (Step.arrive _)))
-  have r5 := r4.step (.base (.base (Step.checkNo _ [⟨.holding, 1⟩] [] 2 rfl (by decide))))
-  have r6 := r5.step (.base (.base (Step.dec _ [⟨.holding, 1⟩] [] 2 rfl)))
-  -- the accept path closes the refused session: disconnect hook = release: now--, tmp--
-  have r7 := r6.step (CStep.zrel1 _ 0 rfl)
-  have r8 := r7.step (CStep.zrel2 _ 0 rfl)
-  -- third connection: tmp++ gives x = 1 again, admitted
-  have r9 := r8.step (.base (.base (Step.arrive _)))
-  have r10 := r9.step (.base (.base (Step.checkOk _ [⟨.holding, 1⟩] [] 1 rfl (by decide))))
-  have r11 := r10.step (.base (.base (Step.inc _ [⟨.holding, 1⟩] [] 1 rfl)))
-  exact ⟨_, r11, rfl, rfl, by decide⟩
-
-/-- The same history in the sequential model that the harness replays against the real peer:
-    `MaxConn = 1`, three connects: admitted, refused, admitted — two live sessions. -/
-theorem C18_conn_seq_witness :
-    ∃ o, OV.new ⟨1, 0, 0, []⟩ = some o ∧
-      let s1 := (Sys.connect ⟨o, []⟩)
-      let s2 := s1.1.connect
-      let s3 := s2.1.connect
-      s1.2 = .admitted ∧ s2.2 = .rejected 1 1 ∧ s3.2 = .admitted ∧ s3.1.live = 2 := by
-  refine ⟨_, rfl, ?_⟩
-  decide
 
 /-! ## a refused connection consumes no slot -/
 
-/- Full-strength statement (FALSE for the code as it is, see `C18_reject_no_slot_witness`):
-     theorem C18_reject_no_slot (s : Sys) (l n : Int) (h : s.connect.2 = .rejected l n) :
-         s.connect.1.ov = s.ov -/
+/-- A connection refused by the limiter consumes no slot: the whole plugin state (all three
+    counters of the limiter included) is what it was before the connect, although the accept path
+    closes the refused session and its disconnect hook runs; the refused session is closed and is
+    not in the peer's index. -/
+theorem C18_reject_no_slot (s : Sys) (l n : Int) (h : s.connect.2 = .rejected l n) :
+    s.connect.1.ov = s.ov ∧ s.connect.1.sess = s.sess ++ [⟨false, false⟩] ∧
+    s.connect.1.live = s.live := by
+  unfold Sys.connect OV.takeConn at h ⊢
+  cases hc : s.ov.conn with
+  | none => simp [hc] at h
+  | some c =>
+    simp only [hc] at h ⊢
+    cases ht : c.take.2 with
+    | true => simp [ht] at h
+    | false =>
+      have hu := take_false_unchanged c ht
+      simp only [Bool.false_eq_true, if_false, hu, true_and]
+      refine ⟨?_, ?_⟩
+      · cases hs : s.ov; simp_all
+      · simp [Sys.live, List.countP_append]
 
-/-- The limiter itself: a `take` that returns false leaves all three counters as they were. -/
-theorem C18_reject_no_slot_partial (c : CL) (h : c.take.2 = false) : c.take.1 = c := by
-  simp only [CL.take] at h ⊢
-  by_cases hx : c.tmp + 1 ≤ c.lim
-  · simp [hx] at h
-  · simp only [hx, if_false]
-    cases c; simp only [CL.mk.injEq, true_and]; omega
-
-example : (CL.mk 1 1 1).take.2 = false := by decide
-
-/-- On the accept path as coded the refused connection does change the counters: the session is
-    closed, `postDisconnect` calls `release`; `now` and `tmp` drop by one although nothing was
-    taken. -/
-theorem C18_reject_no_slot_witness :
-    let s : Sys := ⟨⟨⟨1, 0, 0, []⟩, some ⟨1, 1, 1⟩, none, []⟩, [⟨true, true⟩]⟩
-    s.connect.2 = .rejected 1 1 ∧ s.connect.1.ov.conn = some ⟨1, 0, 0⟩ ∧ s.ov.conn = some ⟨1, 1, 1⟩ := by
+/-- non-vacuity: a full limiter refuses. -/
+example : (Sys.connect ⟨⟨⟨1, 0, 0, []⟩, some ⟨1, 1, 1⟩, none, []⟩, [⟨true, true⟩]⟩).2 = .rejected 1 1 := by
   decide
 
 /-! ## an admitted session's slot is released exactly once -/
 
-/-- Exact accounting in the limiter, for every interleaving and with updates: `now` is the number
+/-- Exact accounting in the limiter, for every interleaving and with updates to any value (the
+    limit switched off and on again included): `now` is the number
     of entities holding a slot and `tmp` the number of entities between their `tmp++` and their
     `tmp--`; in particular when all have ended both counters are back to 0 — no slot is leaked and
     none is released twice. -/
@@ -144,7 +171,7 @@ theorem C18_release_once (lim : Int) (h : 0 ≤ lim) (s : St) (r : Reach UStep (
 /-- Sequentially: an admitted take followed by one release restores the limiter. -/
 theorem C18_release_once_seq (c : CL) (h : c.take.2 = true) : c.take.1.release = c := by
   simp only [CL.take] at h ⊢
-  by_cases hx : c.tmp + 1 ≤ c.lim
+  by_cases hx : c.lim ≤ 0 ∨ c.tmp + 1 ≤ c.lim
   · simp only [hx, if_true, CL.release]
     cases c; simp only [CL.mk.injEq, true_and]; omega
   · simp [hx] at h
@@ -170,87 +197,43 @@ theorem C18_close_idempotent (s : Sys) (i : Nat) : (s.close i).close i = s.close
 
 /-! ## rate limit -/
 
-/- Full-strength statement (FALSE for the code as it is, see `C18_rate_bound_witness`): for every
-   schedule `evs` (ticker load and store as separate steps),
-     qrun limit once s evs = some t → s.tokens ≤ limit →
-       (t.adm : Int) - s.adm ≤ limit + once * (t.ticks - s.ticks) + (t.ticks - s.ticks)   -/
-
-/-- The schedule in which the ticker's refill is atomic with respect to `take` (takers still
-    interleave freely with each other, any number of them): over ANY interval, starting in any
-    state whose bucket is not over-full, the number of admitted calls and pushes is at most the
-    bucket capacity plus the refill of the interval (`once` per tick) — no slack needed. -/
-theorem C18_rate_bound_partial (limit once : Int) (h0 : 0 ≤ once) (h1 : once ≤ limit)
-    (evs : List QEv) (hat : ∀ e ∈ evs, e.atomicTick = true) (s t : QSt)
+/-- Under EVERY schedule — any number of takers interleaving freely with each other and with the
+    ticker, whose load and compare-and-swap are separate steps (a failed compare-and-swap loads
+    again) — over ANY interval, starting in any state whose bucket is not over-full, the number of
+    admitted calls and pushes is at most the bucket capacity plus the refill of the interval
+    (`once` per completed refill); the bucket never holds more than its capacity. No slack is
+    needed. -/
+theorem C18_rate_bound_exact (limit once : Int) (h0 : 0 ≤ once) (h1 : once ≤ limit)
+    (evs : List QEv) (s t : QSt)
     (hcap : s.tokens ≤ limit) (hr : qrun limit once s evs = some t) :
     (t.adm : Int) - s.adm ≤ limit + once * ((t.ticks : Int) - s.ticks) ∧ t.tokens ≤ limit := by
-  suffices h : pot t ≤ pot s + once * ((t.ticks : Int) - s.ticks) ∧ t.tokens ≤ limit ∧ s.ticks ≤ t.ticks by
-    refine ⟨?_, h.2.1⟩
-    have := h.1; unfold pot at this; omega
-  induction evs generalizing s with
-  | nil => simp only [qrun, Option.some.injEq] at hr; subst hr; exact ⟨by simp, hcap, Nat.le_refl _⟩
-  | cons e es ih =>
-    simp only [qrun] at hr
-    cases hq : qstep limit once s e with
-    | none => simp [hq] at hr
-    | some u =>
-      simp only [hq, Option.bind_some] at hr
-      have hs := pot_step limit once h0 h1 s u e hq
-      rw [hat e (by simp)] at hs
-      simp only [if_true] at hs
-      have hi := ih (fun e he => hat e (by simp [he])) u (hs.2.1 hcap) hr
-      refine ⟨?_, hi.2.1, Nat.le_trans hs.2.2 hi.2.2⟩
-      have e1 := hs.1; have e2 := hi.1
-      have : once * ((t.ticks : Int) - s.ticks) = once * ((t.ticks : Int) - u.ticks) + once * ((u.ticks : Int) - s.ticks) := by
-        rw [← Int.mul_add]; congr 1; omega
-      omega
+  have h := pot_run limit once h0 h1 evs s t hcap hr
+  refine ⟨?_, h.2.1⟩
+  have := h.1; unfold pot at this; omega
+
+/-- The property as worded: admissions in any interval never exceed the bucket capacity plus the
+    refill of that interval, allowing one admission of slack per refill tick. -/
+theorem C18_rate_bound (limit once : Int) (h0 : 0 ≤ once) (h1 : once ≤ limit)
+    (evs : List QEv) (s t : QSt)
+    (hcap : s.tokens ≤ limit) (hr : qrun limit once s evs = some t) :
+    (t.adm : Int) - s.adm ≤ limit + once * ((t.ticks : Int) - s.ticks) + ((t.ticks : Int) - s.ticks) := by
+  have h := pot_run limit once h0 h1 evs s t hcap hr
+  have := (C18_rate_bound_exact limit once h0 h1 evs s t hcap hr).1
+  have := h.2.2
+  omega
 
 /-- non-vacuity: a full bucket of 2, refill 1: two admitted, one refused, tick, one admitted. -/
 example : ∃ t, qrun 2 1 (QSt.init 2)
     [.takeLoad, .takeLoad, .takeAdd, .takeAdd, .takeLoad, .tick, .takeLoad, .takeAdd] = some t
     ∧ t.adm = 3 ∧ t.rej = 1 ∧ t.ticks = 1 := ⟨_, rfl, by decide⟩
 
-/-- What the code as it is guarantees under EVERY schedule (ticker racing with takers): each
-    completed refill can bring back at most a full bucket, so over any interval the admissions are
-    at most `limit * (ticks + 1)` — the configured refill `once` per tick is not respected. -/
-theorem C18_rate_bound_racy (limit once : Int) (h0 : 0 ≤ once) (h1 : once ≤ limit)
-    (evs : List QEv) (s t : QSt)
-    (hcap : s.tokens ≤ limit) (hr : qrun limit once s evs = some t) :
-    (t.adm : Int) - s.adm ≤ limit + limit * ((t.ticks : Int) - s.ticks) := by
-  suffices h : pot t ≤ pot s + limit * ((t.ticks : Int) - s.ticks) ∧ s.ticks ≤ t.ticks by
-    have := h.1; unfold pot at this; omega
-  induction evs generalizing s with
-  | nil => simp only [qrun, Option.some.injEq] at hr; subst hr; simp
-  | cons e es ih =>
-    simp only [qrun] at hr
-    cases hq : qstep limit once s e with
-    | none => simp [hq] at hr
-    | some u =>
-      simp only [hq, Option.bind_some] at hr
-      have hs := pot_step limit once h0 h1 s u e hq
-      have hi := ih u (hs.2.1 hcap) hr
-      refine ⟨?_, Nat.le_trans hs.2.2 hi.2⟩
-      have e2 := hi.1
-      have hd : (0 : Int) ≤ (u.ticks : Int) - s.ticks := by have := hs.2.2; omega
-      have e1 : pot u ≤ pot s + limit * ((u.ticks : Int) - s.ticks) := by
-        have := hs.1
-        split at this
-        · have hm : once * ((u.ticks : Int) - s.ticks) ≤ limit * ((u.ticks : Int) - s.ticks) :=
-            Int.mul_le_mul_of_nonneg_right h1 hd
-          omega
-        · exact this
-      have : limit * ((t.ticks : Int) - s.ticks) = limit * ((t.ticks : Int) - u.ticks) + limit * ((u.ticks : Int) - s.ticks) := by
-        rw [← Int.mul_add]; congr 1; omega
-      omega
-
-/-- The race: capacity 3, refill 1 per tick. The ticker loads 3; three takers are admitted; the
-    ticker stores `min(3+1,3) = 3`, forgetting them; three more are admitted: 6 admissions in an
-    interval with one tick, more than capacity 3 + refill 1 + one slack = 5. -/
-theorem C18_rate_bound_witness :
-    ∃ t, qrun 3 1 (QSt.init 3)
-      [.tickLoad, .takeLoad, .takeAdd, .takeLoad, .takeAdd, .takeLoad, .takeAdd, .tickStore,
-       .takeLoad, .takeAdd, .takeLoad, .takeAdd, .takeLoad, .takeAdd] = some t
-      ∧ t.adm = 6 ∧ t.ticks = 1 ∧ ¬ ((t.adm : Int) - 0 ≤ 3 + 1 * (t.ticks : Int) + t.ticks) :=
-  ⟨_, rfl, by decide⟩
+/-- non-vacuity, the schedule that used to lose admissions: capacity 3, refill 1. The ticker loads
+    3; three takers are admitted; the ticker's compare-and-swap finds 0, fails, loads again and
+    refills 0 to 1; of three more takers one is admitted: 4 = capacity 3 + refill 1. -/
+example : ∃ t, qrun 3 1 (QSt.init 3)
+    [.tickLoad, .takeLoad, .takeAdd, .takeLoad, .takeAdd, .takeLoad, .takeAdd, .tickCas,
+     .tickLoad, .tickCas, .takeLoad, .takeAdd, .takeLoad, .takeLoad] = some t
+    ∧ t.adm = 4 ∧ t.rej = 2 ∧ t.ticks = 1 ∧ t.retries = 1 := ⟨_, rfl, by decide⟩
 
 /-! ## refused calls are answered with an error and not handled -/
 
